@@ -907,9 +907,6 @@ func c13tfEvalDiff(c *Ctx, p c13tfCase) {
 			c.Nontrivial()
 		}
 		c.Direct("tf:domdiff-is-Diff-of-the-two-containers", canon(mods) == canon(c07ModsWire(direct)), map[string]any{"impl": mods, "diff.Diff": c07ModsWire(direct)})
-		if canon(p.L) != canon(p.R) && wireScalars(p.L)+wireScalars(p.R) > 0 && canon(c13tfNoEmpties(p.L)) != canon(c13tfNoEmpties(p.R)) {
-			c.Direct("tf:domdiff-of-different-documents-is-not-empty", len(ms) > 0, map[string]any{"l": p.L, "r": p.R})
-		}
 	} else {
 		c.Direct("tf:domdiff-of-non-containers-is-empty", len(ms) == 0, mods)
 	}
@@ -917,34 +914,6 @@ func c13tfEvalDiff(c *Ctx, p c13tfCase) {
 	c.Direct("tf:domdiff-x-x-is-empty", len(ll) == 0, c07ModsWire(ll))
 	c.Direct("tf:domdiff-inputs-untouched", canon(l0) == canon(l1) && canon(r0) == canon(r1), map[string]any{"l": l1, "r": r1})
 	c.Corr("tf.domDiff", mods, c.Model("tplFuncs", map[string]any{"fn": "domDiff", "l": p.L, "r": p.R}))
-}
-
-// c13tfNoEmpties drops empty containers (a diff reports leaves only: documents that differ in empty containers alone have
-// an empty diff).
-func c13tfNoEmpties(w W) W {
-	switch x := w.(type) {
-	case []any:
-		out := make([]any, len(x))
-		for i, e := range x {
-			out[i] = c13tfNoEmpties(e)
-		}
-		return out
-	case map[string]any:
-		if m, ok := x["m"].(map[string]any); ok {
-			o := map[string]any{}
-			for k, e := range m {
-				if em, isC := wireCont(e); isC && len(em) == 0 {
-					continue
-				}
-				if el, isL := e.([]any); isL && len(el) == 0 {
-					continue
-				}
-				o[k] = c13tfNoEmpties(e)
-			}
-			return map[string]any{"m": o}
-		}
-	}
-	return w
 }
 
 func c13tfEvalTpl(c *Ctx, p c13tfCase) {
